@@ -155,6 +155,7 @@ def source_scan():
                 if "-/" not in s.split("/-", 1)[1]:
                     in_block = 1
                 s = head
+            s = re.sub(r'"(\\.|[^"\\])*"', '""', s)   # string literals are data, not proof terms
             s = s.split("--", 1)[0]
             if FORBIDDEN.search(s):
                 bad.append(f"{os.path.relpath(f, VERIF)}:{no}: {line.strip()}")
